@@ -465,6 +465,15 @@ class Interp:
                 return fdef, importlib.import_module(k.__module__), k
         return None
 
+    def run_fragment(self, module, stmts, locals_, fname="<fragment>", fdef=None):
+        """Execute a statement list taken from inside a real function in a frame supplied by the
+        sidecar contract. Returns the frame (its locals are the fragment's final state)."""
+        frame = Frame(module)
+        frame.fname, frame.fdef_for_loops = fname, fdef
+        frame.locals.update(locals_)
+        self.exec_block(stmts, frame)
+        return frame
+
     # ---- statements
     def exec_block(self, stmts, frame):
         for s in stmts:
@@ -774,7 +783,10 @@ class Interp:
             if isinstance(v, ast.Constant):
                 parts.append(v.value)
             else:
-                x = self.eval(v.value, f)
+                try:
+                    x = self.eval(v.value, f)
+                except Unsupported:
+                    return Opaque("fstring")  # message text only; its value is dropped (documented)
                 if not is_concrete(x):
                     return Opaque("fstring")
                 spec = ""
@@ -1020,6 +1032,8 @@ class Interp:
         return self.getattr(obj, e.attr)
 
     def getattr(self, obj, name):
+        if hasattr(obj, "__vc_getattr__"):
+            return obj.__vc_getattr__(self, name)
         if isinstance(obj, SObj):
             if name in obj.fields:
                 return obj.fields[name]
